@@ -3,6 +3,7 @@
 package slip
 
 import (
+	"math"
 	"math/big"
 	"strconv"
 )
@@ -69,16 +70,23 @@ func (obj Fixnum) Equal(other Object) (eq bool) {
 	case Integer:
 		eq = to.IsInt64() && int64(obj) == to.Int64()
 	case SingleFloat:
-		eq = SingleFloat(obj) == to
+		eq = obj.equalFloat(float64(to))
 	case DoubleFloat:
-		eq = DoubleFloat(obj) == to
+		eq = obj.equalFloat(float64(to))
 	case *LongFloat:
-		eq = big.NewFloat(float64(obj)).Cmp((*big.Float)(to)) == 0
+		eq = new(big.Float).SetInt64(int64(obj)).Cmp((*big.Float)(to)) == 0
 	case *Ratio:
 		rat := (*big.Rat)(to)
 		eq = rat.IsInt() && rat.Num().IsInt64() && rat.Num().Int64() == int64(obj)
 	}
 	return
+}
+
+// equalFloat returns true if the float has exactly the value of the
+// fixnum. Converting the fixnum to the float type instead would round it and
+// make 9007199254740993 equal to 9007199254740992.0.
+func (obj Fixnum) equalFloat(f float64) bool {
+	return -9223372036854775808.0 <= f && f < 9223372036854775808.0 && f == math.Trunc(f) && int64(f) == int64(obj)
 }
 
 // Hierarchy returns the class hierarchy as symbols for the instance.
